@@ -70,6 +70,7 @@ ASSUMPTIONS = [
     "a ClearKey request containing a malformed id (non-string, or not unpadded base64url) may be refused as a whole with the controlled JSON error (no keys); a 5xx is a violation; requests are JSON objects carrying a `type` member",
     "PlayReady 1.0 (PIFF) has no cenc:pssh location: with playready__version=1.0 a requested `cenc` location may be omitted",
     "cp_elements compares embedded pssh/pro with the init segment only for adaptation sets whose tracks share one key set (see ledger C11 cp-adaptation-set-key-union)",
+    "in a multi-period manifest the embedded pssh/pro of a period whose stream stores a PlayReady licence URL as stream default is not compared with the init segment (ledger C11 mps-manifest-ignores-period-stream-defaults)",
     "key ids and keys are 16 bytes (KeyMaterial enforces it); the key seed is at least 30 bytes",
 ]
 
@@ -1299,7 +1300,7 @@ def model_shape(ctx_line: str) -> dict | None:
     return sh
 
 
-def oracle_cp(env, c, res=None) -> list[dict]:
+def oracle_cp(env, c, res=None, only_mps_defaults=False) -> list[dict]:
     res = res or impl_cp(env, c)
     if res["status"] != 200:
         return [{"what": f"manifest request answered {res['status']}", "case": c}] if res["status"] >= 500 else []
@@ -1372,6 +1373,11 @@ def oracle_cp(env, c, res=None) -> list[dict]:
         same_keys = len({tuple(m["kids"]) for m in reps}) == 1
         if not same_keys:
             continue          # ledger C11 cp-adaptation-set-key-union; replayed separately
+        # ledger C11 mps-manifest-ignores-period-stream-defaults: a multi-period manifest is rendered from the
+        # request's options only, the init route of a period applies that period's stream defaults
+        has_defaults = c.get("route") == "mps" and any(lib.default_license_url(env, m["stream"]) for m in reps)
+        if has_defaults != only_mps_defaults:
+            continue
         embedded = any(cp["pssh"] is not None or cp["pro"] is not None for cp in adp["cps"])
         for init in a["inits"]:
             if init["status"] != 200:
@@ -1714,6 +1720,9 @@ def run_oracle(env, case) -> list[dict]:
         return oracle_cp(env, case)
     if kind == "cp_key_union":
         return oracle_key_union(env, case)
+    if kind == "cp_mps_defaults":
+        return [dict(f, **{"class": "mps-manifest-ignores-period-stream-defaults"})
+                for f in oracle_cp(env, dict(case, kind="cp"), only_mps_defaults=True)]
     if kind == "drm_history":
         return replay_drm_history(case)["failures"]
     return []
